@@ -160,6 +160,52 @@ SEED_PAYLOADS = {
 }
 
 
+def _compressed_update_payload(rng):
+    """wire layout of ObjectUpdateCompressed.ObjectData.Data, written by hand (the serializer decides whether it is accepted)"""
+    def cstr():
+        return rng.choice([b"", b"hover text", b"a'b\"c\\d", b"l1\nl2\nl3\nl4\nl5\nl6", "\u00e9\u4e2d".encode("utf8")]) + b"\x00"
+
+    def f(*xs):
+        return struct.pack(f"<{len(xs)}f", *xs)
+    flags = 0
+    for bit in (1, 2, 4, 8, 16, 32, 64, 128, 256, 512):
+        if rng.random() < 0.3:
+            flags |= bit
+    if flags & 2:
+        flags &= ~1
+    buf = bytes(rng.getrandbits(8) for _ in range(16)) + struct.pack("<I", rng.getrandbits(32))
+    buf += bytes([rng.choice([9, 47, 95, 111, 143, 255]), rng.getrandbits(8)]) + struct.pack("<I", rng.getrandbits(32))
+    buf += bytes([rng.randrange(8), rng.randrange(9)])
+    buf += f(0.5, 1.0, rng.choice([0.25, 10.0, 64.0])) + f(128.0, rng.choice([0.0, 255.5, -3.25]), 20.0) + rng.choice([f(0.0, 0.0, 0.0), f(0.5, 0.5, 0.5), f(1.0, 0.0, 0.0), f(0.0, -0.5, 0.5)])
+    buf += struct.pack("<I", flags) + rng.choice([bytes(16), bytes(rng.getrandbits(8) for _ in range(16))])
+    if flags & 128:
+        buf += f(0.0, 0.0, rng.choice([1.0, -0.125]))
+    if flags & 32:
+        buf += struct.pack("<I", rng.getrandbits(32))
+    if flags & 2:
+        buf += bytes([rng.getrandbits(8)])
+    if flags & 1:
+        n = rng.choice([0, 1, 5])
+        buf += struct.pack("<I", n) + bytes(rng.getrandbits(8) for _ in range(n))
+    if flags & 4:
+        buf += cstr() + bytes(rng.getrandbits(8) for _ in range(4))
+    if flags & 512:
+        buf += cstr()
+    if flags & 8:
+        buf += bytes(86)
+    buf += rng.choice([b"\x00", b"\x01\x20\x00\x10\x00\x00\x00" + bytes(range(16))])
+    if flags & 16:
+        buf += bytes(rng.getrandbits(8) for _ in range(16)) + f(rng.choice([0.0, 1.0, 0.5])) + bytes([rng.randrange(64)]) + f(rng.choice([0.0, 20.0]))
+    if flags & 256:
+        buf += rng.choice([b"FirstName STRING RW SV Test\nLastName STRING RW SV User", b"Title STRING RW SV x"]) + b"\x00"
+    buf += bytes(rng.getrandbits(8) for _ in range(23))
+    tes = _te_payloads(rng, 1) or [b""]
+    buf += struct.pack("<I", len(tes[0])) + tes[0]
+    if flags & 64:
+        buf += struct.pack("<I", 16) + b"\x01\x00\x02\x02" + f(0.0, 4.0, 1.5)
+    return buf
+
+
 def _te_payloads(rng, n):
     try:
         from contracts.c09_native import te_payloads
@@ -204,6 +250,14 @@ def mine_payload(ser, block, var, msg_name, tv, rng, tries):
         if "ImprovedTerse" in msg_name:
             tes = [struct.pack("<I", len(t_)) + t_ for t_ in tes]
         seeds += tes
+    if (msg_name, var) == ("ObjectUpdateCompressed", "Data"):
+        seeds += [_compressed_update_payload(rng) for _ in range(8)]
+    enum_field = getattr(ser, "ENUM_FIELD", None)
+    if enum_field and isinstance(tms, dict) and enum_field in block.vars and rng.random() < 0.7:
+        try:
+            block[enum_field] = int(rng.choice(sorted(int(k) for k in tms.keys())))     # a context value the serializer has a sub-format for
+        except Exception:  # noqa
+            pass
     accepted = []
     for i in range(tries):
         if seeds and (i < len(seeds)):
